@@ -1056,6 +1056,124 @@ fn s5_inner(c: &S5, ctx: &mut Ctx, d: &mut Drv) -> CaseResult {
 	Ok(())
 }
 
+// ---------------------------------------------------------------------------------------------------
+// S6: a payment received in two parts with different expiries
+// ---------------------------------------------------------------------------------------------------
+
+#[derive(Clone, Debug, Serialize, Deserialize)]
+struct S6 {
+	env: Env,
+	/// the earlier-expiring part leaves this many blocks above the acceptance minimum at the decision height
+	rel_off: u8,
+	/// the other part expires this many blocks later
+	gap: u8,
+	/// which channel carries the earlier-expiring part
+	early_on_second: bool,
+	split_permille: u16,
+	claim_off: i32,
+	a3: Arrive,
+}
+
+fn s6_strategy() -> impl Strategy<Value = S6> + Clone {
+	(env_strategy(), 0u8..6, prop_oneof![Just(0u8), 1u8..4, 4u8..40], any::<bool>(), 100u16..900, -4i32..=3, arrive_strategy())
+		.prop_map(|(env, rel_off, gap, early_on_second, split_permille, claim_off, a3)| S6 { env, rel_off, gap, early_on_second, split_permille, claim_off, a3 })
+}
+
+fn s6_enumeration() -> Vec<S6> {
+	let mut v = vec![];
+	for (ci, ctype) in [CType::Static, CType::Anchors, CType::ZeroFee].into_iter().enumerate() {
+		for gap in [0u8, 1, 2, 7] {
+			for early_on_second in [false, true] {
+				for claim_off in -3i32..=3 {
+					for a3 in [Arrive::SinglePump, Arrive::Single, Arrive::Burst] {
+						let s = (ci as i32 + gap as i32 + claim_off + 3) as u8;
+						v.push(S6 { env: Env { ctype, styles: vec![s % 11, (s / 2 + 4) % 11, 0], amt_msat: 8_000_777, cltv_delta: MIN_CLTV_EXPIRY_DELTA, fee_base_msat: 1000, fee_ppm: 0 }, rel_off: s % 4, gap, early_on_second, split_permille: 400, claim_off, a3 });
+					}
+				}
+			}
+		}
+	}
+	v
+}
+
+fn s6_oracle(c: &S6, ctx: &mut Ctx) -> CaseResult {
+	constants_consistent().map_err(|e| Failure::new("constants", e))?;
+	let spec = timing_world(Topology::Line3Parallel, c.env.ctype, c.env.cltv_delta, c.env.fee_base_msat, c.env.fee_ppm, &c.env.styles);
+	let mut d = Drv::new(spec.build(false));
+	let r = s6_inner(c, ctx, &mut d);
+	fin(&d.sim, ctx, r)
+}
+
+fn s6_inner(c: &S6, ctx: &mut Ctx, d: &mut Drv) -> CaseResult {
+	// Line3Parallel: channels 1 and 2 both connect node 1 (payer) and node 2 (recipient)
+	let (a, b) = (1usize, 2usize);
+	let h0 = d.sim.height_of(a);
+	let fd_early = (ACCEPT_MIN_REL + c.rel_off as i64 - 1) as u32;
+	let fd_late = fd_early + c.gap as u32;
+	let amt1 = c.env.amt_msat * c.split_permille as u64 / 1000;
+	let amt2 = c.env.amt_msat - amt1;
+	let (fd1, fd2) = if c.early_on_second { (fd_late, fd_early) } else { (fd_early, fd_late) };
+	let p = d.sim.send_custom_mpp(a, &[(1, amt1, fd1), (2, amt2, fd2)]).ok_or_else(|| Failure::new("harness", "no route"))?;
+	if d.sim.pays[p].state == PayState::Refused {
+		ctx.label("s6:send-refused");
+		ctx.discard();
+		return Ok(());
+	}
+	let hash = d.sim.pays[p].hash;
+	let exp_early = h0 + 1 + fd_early;
+	d.pump();
+	let t = Timeline::build(&d.sim);
+	let Some((h_ev, deadline)) = t.claimable(b, &hash) else {
+		return Err(Failure::new("acceptable-htlc-rejected", format!("two-part payment with expiries {} / {} received at height {} was not shown as claimable", exp_early, exp_early + c.gap as u32, h0)));
+	};
+	// "can be claimed at any height strictly below its advertised claim deadline, and from that height on the node
+	// fails it back itself": the node gives up each part HTLC_FAIL_BACK_BUFFER blocks before that part expires,
+	// so the advertised deadline has to be that of the part expiring first
+	let cd = exp_early - HTLC_FAIL_BACK_BUFFER;
+	ctx.label_if(c.gap > 0, "s6:parts-expire-at-different-heights");
+	ctx.label(if c.early_on_second { "s6:earlier-part-on-second-channel" } else { "s6:earlier-part-on-first-channel" });
+	vensure!(deadline == Some(cd), "claim-deadline-value", "claim_deadline {:?} but the earliest part expires at {} and is failed back at {} - HTLC_FAIL_BACK_BUFFER {} = {}", deadline, exp_early, exp_early, HTLC_FAIL_BACK_BUFFER, cd);
+	vensure!(cd > h_ev, "claim-deadline-already-passed", "PaymentClaimable at height {} with claim_deadline {}", h_ev, cd);
+	let h_claim = (cd as i64 + c.claim_off as i64).max(h_ev as i64) as u32;
+	d.advance(h_claim - h_ev, c.a3);
+	let t = Timeline::build(&d.sim);
+	let failed_back = t.fails.iter().filter(|m| m.from == b && m.to == a && m.hash == Some(hash)).map(|m| m.h_from).min();
+	if let Some(h) = failed_back {
+		vensure!(h >= cd, "failed-back-before-deadline", "the recipient gave up a part at height {} but the advertised claim_deadline is {}", h, cd);
+	}
+	ctx.label_if((h_claim as i64 - cd as i64).abs() <= 2, "s6:claim-boundary±2");
+	if h_claim < cd {
+		ctx.label("s6:claim-before-deadline");
+		vensure!(failed_back.is_none(), "failed-back-before-deadline", "a part was failed back before height {}", cd);
+		d.sim.claim(p);
+		d.pump();
+		let t = Timeline::build(&d.sim);
+		vensure!(t.claimed(b, &hash), "claim-before-deadline-failed", "claim_funds at height {} < claim_deadline {} did not produce PaymentClaimed", h_claim, cd);
+		let fulfilled = t.fulfills.iter().filter(|m| m.from == b && m.to == a && m.hash == Some(hash)).count();
+		vensure!(fulfilled == 2, "claim-before-deadline-failed", "claim_funds at height {} < claim_deadline {} released the preimage on {} of 2 parts", h_claim, cd, fulfilled);
+		vensure!(t.sent(a, &hash) && !t.failed(a, &hash), "claim-before-deadline-failed", "payer did not get PaymentSent");
+	} else {
+		ctx.label("s6:claim-at-or-after-deadline");
+		d.pump();
+		let t = Timeline::build(&d.sim);
+		let first_fail = t.fails.iter().filter(|m| m.from == b && m.to == a && m.hash == Some(hash)).map(|m| m.h_from).min();
+		let Some(hf) = first_fail else {
+			return Err(Failure::new("not-failed-back-at-deadline", format!("height {} >= claim_deadline {} but the recipient failed no part back", h_claim, cd)));
+		};
+		if c.a3 == Arrive::SinglePump {
+			vensure!(hf == cd, "not-failed-back-at-deadline", "first fail emitted at height {} instead of claim_deadline {}", hf, cd);
+		}
+		d.sim.claim(p);
+		d.pump();
+		let t = Timeline::build(&d.sim);
+		let fulfilled = t.fulfills.iter().filter(|m| m.from == b && m.to == a && m.hash == Some(hash)).count();
+		vensure!(fulfilled == 0 && !t.claimed(b, &hash) && !t.sent(a, &hash), "claimed-after-deadline", "claim_funds at height {} >= claim_deadline {} released the preimage on {} part(s)", h_claim, cd, fulfilled);
+	}
+	ctx.nontrivial_if(c.gap > 0 || (h_claim as i64 - cd as i64).abs() <= 2);
+	ctx.summary(json!({"scenario": "S6", "gap": c.gap, "claim_height_minus_deadline": h_claim as i64 - cd as i64, "type": format!("{:?}", c.env.ctype)}));
+	Ok(())
+}
+
 fn main() {
 	install_recording_signer();
 	netsim::rec::tolerate_monitor_roundtrip_tripwire();
@@ -1121,7 +1239,19 @@ fn main() {
 		s5_strategy,
 		s5_oracle,
 	);
+	c.part_with(
+		PartSpec {
+			name: "s6-two-part-receive",
+			rule: "payer and recipient joined by two channels; one payment in two parts whose final expiries differ by 0..40 blocks, the earlier one on either channel; oracle: PaymentClaimable advertises claim_deadline = (earliest part's expiry) - HTLC_FAIL_BACK_BUFFER; claim_funds at any height below it releases the preimage on both parts and no part was failed back before; from that height on the recipient has failed the earliest part back itself and a late claim_funds releases nothing. Non-trivial: the parts expire at different heights or the claim height is within 2 blocks of the deadline",
+			quick_cases: 500,
+			thorough_cases: 12_000,
+			max_shrink: 200,
+		},
+		s6_strategy,
+		s6_oracle,
+	);
 	if thorough {
+		c.enumerate("s6-boundary-cross-product", "exhaustive over channel type x expiry gap {0,1,2,7} x which channel carries the earlier part x claim-height offset -3..+3 x block arrival mode (S6 oracle)", s6_enumeration(), true, s6_oracle);
 		c.enumerate("s1-boundary-cross-product", "exhaustive over channel type x acceptance offset -3..+3 x claim-height offset -3..+3 x block arrival mode x 4 placements of the preceding blocks (S1 oracle)", s1_enumeration(), true, s1_oracle);
 		c.enumerate("s2-boundary-cross-product", "exhaustive over channel type x threshold (outgoing-too-soon, too-far, final-hop) x offset -3..+3 x offered-delta offset -3..+3 x 2 placements of the preceding blocks (S2 oracle)", s2_enumeration(), true, s2_oracle);
 		c.enumerate("s3-mode-cross-product", "exhaustive over channel type x every behaviour of C (silent x 3 stages x 2 link states, fulfil / fail at offsets -3..+3, on-chain wake-up at -3..+4 x miner preference) x 4 confirmation-delay profiles incl. both extremes (S3 oracle)", s3_enumeration(), true, s3_oracle);
